@@ -160,6 +160,59 @@ def _link(tab, k, v, p, c):
             CTX.add(z3.Implies(same_kv.e, body))
 
 
+def ks_native(name, key, counter_block):
+    """AES keystream block as a NATIVE z3 uninterpreted function (key128/256, block128) -> 128 bits: congruence is
+    handled by the solver, no pairwise axioms (for harnesses with many blocks)."""
+    from .sbytes import from_bytes
+    k = items_of(key)
+    cb = items_of(counter_block)
+    kbits, cbits = 8 * len(k), 8 * len(cb)
+    f = z3.Function(f"{name}{kbits}", z3.BitVecSort(kbits), z3.BitVecSort(cbits), z3.BitVecSort(128))
+    CTX.uses_uf = True
+
+    def bv(items, bits):
+        v = from_bytes(items, "big")
+        if isinstance(v, int):
+            return z3.BitVecVal(v, bits)
+        e = v.e
+        return z3.Extract(bits - 1, 0, e) if e.size() >= bits else z3.ZeroExt(bits - e.size(), e)
+    out = f(bv(k, kbits), bv(cb, cbits))
+    record("ks", key=k, block=cb)
+    return [SymInt._raw(z3.ZeroExt(1, z3.Extract(127 - 8 * i, 120 - 8 * i, out)), 0, 255, 4) for i in range(16)]
+
+
+NATIVE_KS = [False]
+XTS_BLOCKWISE = [False]
+
+
+def xts_native(direction, key, tweak, j, block):
+    """One 16-byte block of AES-XTS as a pair of NATIVE z3 functions E/D(key, tweak, block index, data): XTS processes
+    block j of a data unit with a tweak derived from (key2, tweak, j) only.  E and D are tied together by instantiating
+    D(k,t,j,E(k,t,j,p)) = p (resp. E(..D(..c)) = c) at every application, which is all a bounded harness can observe."""
+    from .sbytes import from_bytes
+    k, t, d = items_of(key), items_of(tweak), items_of(block)
+    kbits = 8 * len(k)
+    sig = (z3.BitVecSort(kbits), z3.BitVecSort(128), z3.BitVecSort(16), z3.BitVecSort(128), z3.BitVecSort(128))
+    E, D = z3.Function(f"XTS-E{kbits}", *sig), z3.Function(f"XTS-D{kbits}", *sig)
+    CTX.uses_uf = True
+
+    def bv(items, bits):
+        v = from_bytes(items, "big")
+        if isinstance(v, int):
+            return z3.BitVecVal(v, bits)
+        e = v.e
+        return z3.Extract(bits - 1, 0, e) if e.size() >= bits else z3.ZeroExt(bits - e.size(), e)
+    kk, tt, jj, dd = bv(k, kbits), bv(t, 128), z3.BitVecVal(j, 16), bv(d, 128)
+    if direction == "enc":
+        out = E(kk, tt, jj, dd)
+        CTX.add(D(kk, tt, jj, out) == dd)
+    else:
+        out = D(kk, tt, jj, dd)
+        CTX.add(E(kk, tt, jj, out) == dd)
+    record("xts", dir=direction, key=k, tweak=t, j=j)
+    return [SymInt._raw(z3.ZeroExt(1, z3.Extract(127 - 8 * i, 120 - 8 * i, out)), 0, 255, 4) for i in range(16)]
+
+
 def xor_bytes(a, b):
     return [x ^ y for x, y in zip(a, b)]
 
@@ -171,7 +224,7 @@ def ctr_keystream(name, key, counter_block_int, nblocks_bytes):
     for i in range(n):
         cb = (counter_block_int + i) % (1 << 128)
         cbb = cb.to_bytes(16, "big") if isinstance(cb, int) else items_of(cb.to_bytes(16, "big"))
-        out.extend(uf(name, [key, cbb], 16))
+        out.extend(ks_native(name, key, cbb) if NATIVE_KS[0] else uf(name, [key, cbb], 16))
     return out[:nblocks_bytes]
 
 
@@ -250,6 +303,11 @@ class _Ctx:
             for o in range(0, len(data), 16):
                 f = enc if self.dir == "enc" else dec
                 out.extend(f(f"{alg.name}-ECB", alg.key, [], data[o: o + 16]))
+            return SymBytes.make(out)
+        if mode.name == "XTS" and XTS_BLOCKWISE[0] and len(data) % 16 == 0:
+            out = []
+            for j in range(len(data) // 16):
+                out.extend(xts_native(self.dir, alg.key, iv, j, data[16 * j: 16 * j + 16]))
             return SymBytes.make(out)
         f = enc if self.dir == "enc" else dec
         return SymBytes.make(f(name, alg.key, iv, data))
